@@ -82,7 +82,7 @@ def run_flow(pid, tier, replay, prefix):
         "programs_with_shared_nodes": sum(1 for e in ok if any(len(n["funcs"]) > 1 for n in e["cfg"]["nodes"])),
         "programs_with_merged_returns": sum(1 for e in ok if any(n["node"]["lab"] == "<return>" for n in e["cfg"]["nodes"])),
         "programs_rejected_by_cfg": len(evs) - len(ok),
-        "shapes": {s: sum(1 for m in metas if m["shape"] == s) for s in ("forced", "free", "dup", "data")},
+        "shapes": {s: sum(1 for m in metas if m["shape"] == s) for s in ("forced", "free", "dup", "data", "datadup", "datacode")},
     }
     for k in sorted({0, len(texts) // 2, len(texts) - 1}):
         out.sample({"text": texts[k], "shape": metas[k]["shape"]})
